@@ -721,11 +721,15 @@ func (dht *FullRT) SearchValue(ctx context.Context, key string, opts ...routing.
 	}
 
 	stopCh := make(chan struct{})
-	valCh, lookupRes := dht.getValues(ctx, key)
+	// valCtx ends with the search (quorum reached, all peers done, or ctx done):
+	// the queries forward the values they receive for as long as it lives.
+	valCtx, endSearch := context.WithCancel(ctx)
+	valCh, lookupRes := dht.getValues(valCtx, key)
 
 	out := make(chan []byte)
 	go func() {
 		defer close(out)
+		defer endSearch()
 
 		best, peersWithBest, aborted := dht.searchValueQuorum(ctx, key, valCh, stopCh, out, responsesNeeded)
 		if best == nil || aborted {
@@ -852,6 +856,7 @@ type lookupWithFollowupResult struct {
 func (dht *FullRT) getValues(ctx context.Context, key string) (<-chan RecvdVal, <-chan *lookupWithFollowupResult) {
 	valCh := make(chan RecvdVal, 1)
 	lookupResCh := make(chan *lookupWithFollowupResult, 1)
+	searchCtx := ctx
 
 	logger.Debugw("finding value", "key", internal.LoggableRecordKeyString(key))
 
@@ -916,14 +921,17 @@ func (dht *FullRT) getValues(ctx context.Context, key string) (<-chan RecvdVal, 
 				return nil
 			}
 
-			// the record is present and valid, send it out for processing
+			// the record is present and valid, send it out for processing. Wait on
+			// the search's context, not on the per-request one: execOnMany cancels
+			// the latter as soon as enough peers have answered, and a value that was
+			// already received and validated must not be dropped.
 			select {
 			case valCh <- RecvdVal{
 				Val:  val,
 				From: p,
 			}:
-			case <-ctx.Done():
-				return ctx.Err()
+			case <-searchCtx.Done():
+				return searchCtx.Err()
 			}
 
 			return nil
